@@ -559,15 +559,15 @@ package main
 
 //@ emits CopyFrom when true
 //@ requires obj != nil
-//@ define present = has(tf.Attrs, "f")
-//@ define a = tf.Attrs["f"]
+//@ define present = has(tf.Attrs, "$NameSnake")
+//@ define a = tf.Attrs["$NameSnake"]
 //@ define okT = present && is(a, $VT)
 //@ define noDiags = zero(diag.Diagnostics)
-//@ define missingD = attrReadMissingDiag{"P.F"}
-//@ define convD = attrReadConversionFailureDiag{"P.F", "$ValueType"}
+//@ define missingD = attrReadMissingDiag{"$Path"}
+//@ define convD = attrReadConversionFailureDiag{"$Path", "$ValueType"}
 
 // ---- missing or ill-typed attribute: exactly one diagnostic naming the path (C06)
-//@ emits CopyFrom when Kind != "Custom" && !OneOf
+//@ emits CopyFrom when Kind != "Custom" && !OneOf && !IsPlaceholder
 //@ ensures [C06] imp(!present, result == dinsert(noDiags, missingD))
 //@ ensures [C06] imp(present && !is(a, $VT), result == dinsert(noDiags, convD))
 
@@ -594,8 +594,12 @@ package main
 //@ define v = as(a, $VT)
 //@ define known = okT && !v.Null && !v.Unknown
 
-//@ emits CopyFrom when Kind == "Primitive" && !OneOf
+//@ emits CopyFrom when Kind == "Primitive" && !OneOf && !IsPlaceholder
 //@ ensures [C05,C06] imp(okT, len(result) == 0)
+
+// a selected message without fields: nothing to read, nothing is written
+//@ emits CopyFrom when IsPlaceholder
+//@ ensures [C01,C05,C06,C10] len(result) == 0
 
 //@ emits CopyFrom when Kind == "Primitive" && Ctx == "plain" && !IsPlaceholder
 //@ modifies obj.F
@@ -681,7 +685,7 @@ package main
 //@ define e = v.Elems[j0]
 //@ define ev = as(e, $EVT)
 //@ define eknown = is(e, $EVT) && !ev.Null && !ev.Unknown
-//@ define econvD = attrReadConversionFailureDiag{"P.F", "$ElemValueTypeQ"}
+//@ define econvD = attrReadConversionFailureDiag{"$Path", "$ElemValueTypeQ"}
 //@ ensures [C05,C06] imp(okT && !known, len(result) == 0)
 
 //@ emits CopyFrom when (Kind == "PrimitiveList" || Kind == "ObjectList") && Ctx == "plain"
@@ -720,6 +724,20 @@ package main
 //@ ensures [C05,C06] imp(known && inr && !eknown, same(obj.F[j0], zero($GoElemType)))
 //@ ensures [C04,C02] imp(known && inr && eknown, obj.F[j0].X == nestedDecode(ev.Attrs["x"]) && obj.F[j0].Other == 0)
 
+//@ emits CopyFrom when Kind == "ObjectList" && Ctx == "plain" && IsNullable && Nested == "empty"
+//@ invariant[0] imp(inr && !(done(j0) && eknown), obj.F[j0] == nil)
+//@ invariant[0] imp(inr && done(j0) && eknown, obj.F[j0] != nil && fresh(obj.F[j0]))
+//@ invariant[0] diags == noDiags || diags == dinsert(noDiags, econvD)
+//@ ensures [C05,C06] imp(known && inr && !eknown, obj.F[j0] == nil)
+//@ ensures [C04,C01] imp(known && inr && eknown, obj.F[j0] != nil && fresh(obj.F[j0]))
+//@ ensures [C06] imp(known, result == noDiags || result == dinsert(noDiags, econvD))
+
+//@ emits CopyFrom when Kind == "ObjectList" && Ctx == "plain" && !IsNullable && Nested == "empty"
+//@ invariant[0] imp(inr, same(obj.F[j0], zero($GoElemType)))
+//@ invariant[0] diags == noDiags || diags == dinsert(noDiags, econvD)
+//@ ensures [C04,C05,C06,C01] imp(known && inr, same(obj.F[j0], zero($GoElemType)))
+//@ ensures [C06] imp(known, result == noDiags || result == dinsert(noDiags, econvD))
+
 //@ emits CopyFrom when (Kind == "PrimitiveList" || Kind == "ObjectList") && Embed
 //@ modifies obj.Emb_${ID}, obj.Emb_${ID}.F
 
@@ -732,7 +750,7 @@ package main
 //@ define e = v.Elems[k0]
 //@ define ev = as(e, $EVT)
 //@ define eknown = is(e, $EVT) && !ev.Null && !ev.Unknown
-//@ define econvD = attrReadConversionFailureDiag{"P.F", "$ElemValueTypeQ"}
+//@ define econvD = attrReadConversionFailureDiag{"$Path", "$ElemValueTypeQ"}
 //@ ensures [C05,C06] imp(okT && !known, len(result) == 0)
 
 //@ emits CopyFrom when (Kind == "PrimitiveMap" || Kind == "ObjectMap") && Ctx == "plain"
@@ -772,6 +790,20 @@ package main
 //@ ensures [C05] imp(known && inr && is(e, $EVT) && !eknown, same(obj.F[k0], zero($GoElemType)))
 //@ ensures [C04,C02] imp(known && inr && eknown, obj.F[k0].X == nestedDecode(ev.Attrs["x"]) && obj.F[k0].Other == 0)
 
+//@ emits CopyFrom when Kind == "ObjectMap" && Ctx == "plain" && IsNullable && Nested == "empty"
+//@ invariant[0] imp(done(k0) && inr && is(e, $EVT) && !eknown, obj.F[k0] == nil)
+//@ invariant[0] imp(done(k0) && inr && eknown, obj.F[k0] != nil && fresh(obj.F[k0]))
+//@ invariant[0] diags == noDiags || diags == dinsert(noDiags, econvD)
+//@ ensures [C05] imp(known && inr && is(e, $EVT) && !eknown, obj.F[k0] == nil)
+//@ ensures [C04,C01] imp(known && inr && eknown, obj.F[k0] != nil && fresh(obj.F[k0]))
+//@ ensures [C06] imp(known, result == noDiags || result == dinsert(noDiags, econvD))
+
+//@ emits CopyFrom when Kind == "ObjectMap" && Ctx == "plain" && !IsNullable && Nested == "empty"
+//@ invariant[0] imp(done(k0) && inr && is(e, $EVT), same(obj.F[k0], zero($GoElemType)))
+//@ invariant[0] diags == noDiags || diags == dinsert(noDiags, econvD)
+//@ ensures [C04,C05,C01] imp(known && inr && is(e, $EVT), same(obj.F[k0], zero($GoElemType)))
+//@ ensures [C06] imp(known, result == noDiags || result == dinsert(noDiags, econvD))
+
 //@ emits CopyFrom when (Kind == "PrimitiveMap" || Kind == "ObjectMap") && Embed
 //@ modifies obj.Emb_${ID}, obj.Emb_${ID}.F
 
@@ -795,20 +827,20 @@ package main
 //@ emits CopyTo when true
 //@ requires obj != nil && tf != nil
 //@ define noDiags = zero(diag.Diagnostics)
-//@ define hasT = old(has(tf.AttrTypes, "f"))
-//@ define ty = old(tf.AttrTypes["f"])
-//@ define had = old(has(tf.Attrs, "f"))
-//@ define prevA = old(tf.Attrs["f"])
-//@ define out = tf.Attrs["f"]
-//@ define missingD = attrWriteMissingDiag{"P.F"}
-//@ define untouched = has(tf.Attrs, "f") == had && imp(had, out == prevA)
+//@ define hasT = old(has(tf.AttrTypes, "$NameSnake"))
+//@ define ty = old(tf.AttrTypes["$NameSnake"])
+//@ define had = old(has(tf.Attrs, "$NameSnake"))
+//@ define prevA = old(tf.Attrs["$NameSnake"])
+//@ define out = tf.Attrs["$NameSnake"]
+//@ define missingD = attrWriteMissingDiag{"$Path"}
+//@ define untouched = has(tf.Attrs, "$NameSnake") == had && imp(had, out == prevA)
 //@ requires imp(hasT, ty != nil)
 //@ ensures [C03] !tf.Null && !tf.Unknown && tf.Attrs != nil
 //@ ensures [C08,C09] imp(old(tf.Attrs) != nil, tf.Attrs == old(tf.Attrs))
 //@ ensures [C02] tf.AttrTypes == old(tf.AttrTypes)
 
 //@ emits CopyTo when !OneOf
-//@ modifies tf.Null, tf.Unknown, tf.Attrs, tf.Attrs["f"]
+//@ modifies tf.Null, tf.Unknown, tf.Attrs, tf.Attrs["$NameSnake"]
 //@ ensures [C06] imp(!hasT, result == dinsert(noDiags, missingD) && untouched)
 
 // the framework's contract for "null value of this attribute type", assumed of the attribute types
@@ -825,7 +857,7 @@ package main
 //@ requires imp(hasT && !prevOK, zvOK(ty))
 
 //@ emits CopyTo when Kind == "Primitive" && !OneOf
-//@ ensures [C03,C06,C08,C09] imp(hasT, len(result) == 0 && has(tf.Attrs, "f") && is(out, $EVT) && !o.Unknown)
+//@ ensures [C03,C06,C08,C09] imp(hasT, len(result) == 0 && has(tf.Attrs, "$NameSnake") && is(out, $EVT) && !o.Unknown)
 
 // a value that is already present keeps its null-ness (value-held fields only; pointer-backed ones follow the pointer)
 //@ emits CopyTo when Kind == "Primitive" && Ctx == "plain" && !IsNullable
@@ -884,7 +916,7 @@ package main
 //@ requires imp(hasTg, tyg != nil)
 //@ requires imp(hasTg && !prevGOK, is(first(zvg), types.Int64) && second(zvg) == nil && as(first(zvg), types.Int64).Null && !as(first(zvg), types.Int64).Unknown)
 //@ requires imp(factive, wf != nil) && imp(gactive, wg != nil)
-//@ modifies tf.Null, tf.Unknown, tf.Attrs, tf.Attrs["f"], tf.Attrs["g"], tf.Attrs["s"]
+//@ modifies tf.Null, tf.Unknown, tf.Attrs, tf.Attrs["$NameSnake"], tf.Attrs["g"], tf.Attrs["s"]
 //@ define hasTs = old(has(tf.AttrTypes, "s"))
 //@ define tys = old(tf.AttrTypes["s"])
 //@ define zvs = tys.ValueFromTerraform(ctx, tftypes.NewValue(tys.TerraformType(ctx), nil))
@@ -897,7 +929,7 @@ package main
 
 //@ emits CopyTo when Kind == "Primitive" && OneOf
 //@ ensures [C06] imp(hasT && hasTg && hasTs, len(result) == 0)
-//@ ensures [C07,C03,C08,C09] imp(hasT, has(tf.Attrs, "f") && is(out, $EVT) && !o.Unknown)
+//@ ensures [C07,C03,C08,C09] imp(hasT, has(tf.Attrs, "$NameSnake") && is(out, $EVT) && !o.Unknown)
 //@ ensures [C07,C19] imp(hasT && factive, same(o.Value, $CastTo(wf.F)))
 
 //@ emits CopyTo when Kind == "Primitive" && OneOf && HasZero
@@ -913,7 +945,7 @@ package main
 //@ define prevOK = had && is(prevA, types.Object)
 //@ define prev = as(prevA, types.Object)
 //@ define o = as(out, types.Object)
-//@ define convD = attrWriteConversionFailureDiag{"P.F", "$ElemType"}
+//@ define convD = attrWriteConversionFailureDiag{"$Path", "$ElemType"}
 //@ define nestedMissing = attrWriteMissingDiag{"P.F.X"}
 //@ define nty = o.AttrTypes["x"]
 
@@ -921,7 +953,7 @@ package main
 //@ ensures [C06] imp(hasT && !isOT, result == dinsert(noDiags, convD) && untouched)
 
 //@ emits CopyTo when Kind == "Object"
-//@ ensures [C03,C08,C09] imp(isOT, has(tf.Attrs, "f") && is(out, types.Object) && !o.Unknown && o.Attrs != nil)
+//@ ensures [C03,C08,C09] imp(isOT, has(tf.Attrs, "$NameSnake") && is(out, types.Object) && !o.Unknown && o.Attrs != nil)
 //@ ensures [C03] imp(isOT && !prevOK, o.AttrTypes == ot.AttrTypes)
 //@ ensures [C08] imp(isOT && prevOK, o.AttrTypes == prev.AttrTypes && imp(prev.Attrs != nil, o.Attrs == prev.Attrs))
 
@@ -968,7 +1000,7 @@ package main
 
 // ---- custom types (C17)
 //@ emits CopyTo when Kind == "Custom" && Ctx == "plain"
-//@ ensures [C17,C06] imp(hasT, len(result) == 0 && has(tf.Attrs, "f") && out == CopyToHOOK(noDiags, obj.F, ty, prevA))
+//@ ensures [C17,C06] imp(hasT, len(result) == 0 && has(tf.Attrs, "$NameSnake") && out == CopyToHOOK(noDiags, obj.F, ty, prevA))
 
 // ---- lists and maps
 //@ emits CopyTo when (IsRepeated || IsMap) && Kind != "Custom"
@@ -978,9 +1010,9 @@ package main
 //@ define prevOK = had && is(prevA, $VT)
 //@ define prev = as(prevA, $VT)
 //@ define o = as(out, $VT)
-//@ define convD = attrWriteConversionFailureDiag{"P.F", "$Type"}
+//@ define convD = attrWriteConversionFailureDiag{"$Path", "$Type"}
 //@ ensures [C06] imp(hasT && !isCT, result == dinsert(noDiags, convD) && untouched)
-//@ ensures [C03,C08,C09] imp(isCT, has(tf.Attrs, "f") && is(out, $VT) && !o.Unknown)
+//@ ensures [C03,C08,C09] imp(isCT, has(tf.Attrs, "$NameSnake") && is(out, $VT) && !o.Unknown)
 //@ ensures [C03] imp(isCT && !prevOK, o.ElemType == ct.ElemType)
 //@ ensures [C08] imp(isCT && prevOK, o.ElemType == prev.ElemType)
 
@@ -1064,8 +1096,7 @@ package main
 //@ define eot = as(ct.ElemType, types.ObjectType)
 //@ requires imp(isCT && src != nil, is(ct.ElemType, types.ObjectType))
 //@ define weirdAttrs = ite(weird, as(prevA, types.Object).Attrs, zero(map[string]attr.Value))
-//@ modifies weirdAttrs["x"]
-//@ invariant[0] has(tf.Attrs, "f") == had && tf.Attrs["f"] == prevA
+//@ invariant[0] has(tf.Attrs, "$NameSnake") == had && tf.Attrs["$NameSnake"] == prevA
 
 //@ emits CopyTo when Kind == "ObjectList" && Ctx == "plain"
 //@ define ceo = as(c.Elems[j0], types.Object)
@@ -1099,12 +1130,12 @@ package main
 
 // ===================================================================== Schema, emitted code (C10, C02, C17)
 //
-// GenSchema<shape>() for a message with the single field F: the attribute "f" carries the documented
+// GenSchema<shape>() for a message with the single field F: the attribute "$NameSnake" carries the documented
 // flags, description, validators / plan modifiers and type (or nested attributes).
 
 //@ emits Schema when !FlagsOnly || FlagsOnly
-//@ define at = result0.Attributes["f"]
-//@ ensures [C10,C02,C01] len(result1) == 0 && result0.Attributes != nil && has(result0.Attributes, "f")
+//@ define at = result0.Attributes["$NameSnake"]
+//@ ensures [C10,C02,C01] len(result1) == 0 && result0.Attributes != nil && has(result0.Attributes, "$NameSnake")
 
 //@ emits Schema when Kind != "Custom"
 //@ ensures [C10] at.Required == $IsRequired && at.Optional == !$IsRequired
@@ -1143,3 +1174,28 @@ package main
 // custom types: the entry is what the user's hook returns for the attribute the field would otherwise get
 //@ emits Schema when Kind == "Custom"
 //@ ensures [C17,C10] at == GenSchemaHOOK(ctx, tfsdk.Attribute{Description: "$Comment", Optional: !$IsRequired, Required: $IsRequired, Computed: $IsComputed, Sensitive: $IsSensitive})
+
+
+//@ emits CopyTo when (Kind == "ObjectList" || Kind == "ObjectMap") && Nested == "marker"
+//@ modifies weirdAttrs["x"]
+
+// elements that are messages without fields carry the placeholder attribute `active` (a null Bool)
+//@ emits CopyTo when (Kind == "ObjectList" || Kind == "ObjectMap") && Nested == "empty"
+//@ modifies weirdAttrs["active"]
+//@ define ety = ite(weird, as(prevA, types.Object).AttrTypes["active"], eot.AttrTypes["active"])
+//@ define ezv = ety.ValueFromTerraform(ctx, tftypes.NewValue(ety.TerraformType(ctx), nil))
+//@ requires imp(isCT && src != nil, ety != nil && is(first(ezv), types.Bool) && second(ezv) == nil && as(first(ezv), types.Bool).Null && !as(first(ezv), types.Bool).Unknown)
+//@ define actOK = has(ceo.Attrs, "active") && is(ceo.Attrs["active"], types.Bool) && as(ceo.Attrs["active"], types.Bool).Null
+
+//@ emits CopyTo when (Kind == "ObjectList" || Kind == "ObjectMap") && Ctx == "plain" && Nested == "empty" && IsNullable
+//@ invariant[0] imp(dn && !weird, is(cel, types.Object) && !ceo.Unknown && ceo.AttrTypes == eot.AttrTypes && ceo.Null == (sj == nil))
+//@ invariant[0] imp(dn && !weird && sj != nil, ceo.Attrs != nil && fresh(ceo.Attrs))
+//@ invariant[0] imp(dn && !weird && sj != nil && has(eot.AttrTypes, "active"), actOK)
+//@ ensures [C03,C09,C08,C02] imp(isCT && inr && !weird, is(el, types.Object) && !eo.Unknown && eo.AttrTypes == eot.AttrTypes && eo.Null == (sj == nil))
+//@ ensures [C03,C10] imp(isCT && inr && !weird && sj != nil && has(eot.AttrTypes, "active"), has(eo.Attrs, "active") && is(eo.Attrs["active"], types.Bool) && as(eo.Attrs["active"], types.Bool).Null)
+
+//@ emits CopyTo when (Kind == "ObjectList" || Kind == "ObjectMap") && Ctx == "plain" && Nested == "empty" && !IsNullable
+//@ invariant[0] imp(dn && !weird, is(cel, types.Object) && !ceo.Unknown && ceo.AttrTypes == eot.AttrTypes && !ceo.Null && ceo.Attrs != nil && fresh(ceo.Attrs))
+//@ invariant[0] imp(dn && !weird && has(eot.AttrTypes, "active"), actOK)
+//@ ensures [C03,C09,C08,C02] imp(isCT && inr && !weird, is(el, types.Object) && !eo.Unknown && eo.AttrTypes == eot.AttrTypes && !eo.Null)
+//@ ensures [C03,C10] imp(isCT && inr && !weird && has(eot.AttrTypes, "active"), has(eo.Attrs, "active") && is(eo.Attrs["active"], types.Bool) && as(eo.Attrs["active"], types.Bool).Null)
